@@ -22,7 +22,7 @@ func main() {
 		type ent struct{ ID, Level, Title, Explain, Technique string }
 		var out []ent
 		for _, ch := range core.Registry {
-			out = append(out, ent{ch.ID, ch.Level, ch.Title, ch.Explain, ch.Technique})
+			out = append(out, ent{ch.ID, ch.Level, ch.Title, ch.FullExplain(), ch.Technique})
 		}
 		sort.Slice(out, func(i, j int) bool { return out[i].ID < out[j].ID })
 		b, _ := json.MarshalIndent(out, "", " ")
